@@ -161,7 +161,16 @@ pub fn canon_number(rng: &mut Rng, heavy: bool) -> String {
 	let neg = if rng.chance(1, 3) { "-" } else { "" };
 	let body = match fam {
 		0 => crate::gen::number_spelling(rng).trim_start_matches('-').to_string(),
-		1 => format!("{}", rng.below(1000)),
+		1 if rng.chance(1, 2) => format!("{}", rng.below(1000)),
+		1 => {
+			// bare integers of 15..20 digits: above 2^53 most of them are not doubles and must be rounded
+			let n = 15 + rng.below(6);
+			let mut s = format!("{}", 1 + rng.below(9));
+			for _ in 1..n {
+				s.push((b'0' + rng.below(10) as u8) as char);
+			}
+			s
+		}
 		2 => {
 			// random-bit finite double, shortest spelling by Rust
 			let f = random_double(rng);
